@@ -106,4 +106,16 @@ TEXTS = {
         "note": "trusted: Lean kernel + audited axioms (decide +kernel in examples); the model of poll_next (read from src/async_vfs/path.rs, re-checked against the source by an independent pass); executors and async-std types; the async ports have no Lean model",
         "technique": "Lean 4 proof (stuttering simulation, schedule independence) + differential test sync vs async under injected Pending",
     },
+    "C09": {
+        "level": "Lean 4 theorems for an overlay of two memory layers and every canonical path: the overlay's exists, metadata and open_file compute exactly the first-layer-wins union view (markers subtracted); read_dir lists exactly the children of the view, duplicate-free, never '.whiteout'; the three named consequences — creating over a lower-only entry fails as already-existing with the view of EVERY path unchanged, removing a directory with lower-layer children fails as non-empty without side effect, appending continues the lower layer's bytes (copy-up) with the lower layer untouched. PARTIAL: the full operation-contract refinement relative to the union (all of C01's operations, n layers, physical and nested layers) is decided by the tree stream, which compares every step of every overlay configuration with a reference tree initialised with the union of the generated layers.",
+        "design_ref": "DESIGN.md §6 C09",
+        "note": "trusted: Lean kernel + audited axioms; model of overlay.rs tied by the tree and record streams; hypotheses exclude the reserved names and type-conflicting layers",
+        "technique": "Lean 4 proof (abstraction to the union view) over hand-written model + differential check against a union reference tree",
+    },
+    "C10": {
+        "level": "Lean 4 theorems (two memory layers): a successful remove_file/remove_dir through the overlay makes the path absent for every observer and leaves the lower layer untouched; the absence persists across any later change as long as the marker exists (frame lemma), and every other overlay operation on another path keeps the marker (create_dir, create_file, write session, remove_file, remove_dir, open_file; append stated only); a re-created file holds exactly the new bytes, a re-created directory whose former children were removed is empty; the bookkeeping directory is never listed. The open known finding O3 is proved as a negative fact about the model. Tied to the code by the tree stream on 2-4 layer overlays (union reference tree per step, no '.whiteout'/'_wo' in any observation).",
+        "design_ref": "DESIGN.md §6 C10",
+        "note": "trusted: as C09; two statements are only stated (marker survival under append_file of another path; the composed remove/re-create of a directory from an arbitrary state)",
+        "technique": "Lean 4 proof (frame lemmas over the whiteout encoding) over hand-written model + differential check",
+    },
 }
